@@ -145,6 +145,10 @@ const maxInt = int(^uint(0) >> 1)
 
 // ReadNBytes reads n bytes from the reader
 func ReadNBytes(n int, rd io.Reader) ([]byte, error) {
+	// a length of 2^31 and more taken from the data is negative where int has 32 bits
+	if n < 0 {
+		return nil, io.ErrUnexpectedEOF
+	}
 	// n may be a length taken from untrusted data: for large n grow the buffer as the data arrives,
 	// instead of allocating up to 4 GB in advance
 	if n > maxPrealloc {
